@@ -329,6 +329,11 @@ def run(rep, proj, tier):
     from . import state
 
     state.check(rep, proj, "C05.state", module_filter=lambda m: m.name.startswith(('yadism.esf.scale_variations', 'yadism.coefficient_functions.splitting_functions')), floor=1)
+    # the variation terms of a point are those of THAT point's number of flavours, whichever points the runner served before and whichever
+    # of the two variations is switched on (what one variation's code path refreshes, the other's must not rely on)
+    from . import c06
+
+    c06.check_history(rep, proj, tier, rule="C05.history")
     nlab = check_labels(rep, proj)
     rep.floor("splitting labels", nlab, 10)
     js = jobs(tier)
